@@ -196,6 +196,18 @@ def job(args):
             except AbstractRaise as e:
                 ob('L3', f"boundary.{ri}/radial-periodic" if radial else f"boundary.{ri}/admissible-flags", radial and e.exc == 'ValueError',
                    f"periodic flags {sorted(per)}: raises {e.exc}", rfi.loc())
+        # L3t: the flag switched on through the public setter with a truthy value that is not the `True` singleton (what an
+        # element of a numpy bool array, a comparison result or the integer 1 is): the refusal must not depend on identity
+        if cls in RADIAL and vals and vals[0] == ():
+            for face in ('left', 'right'):
+                for tv, tn in ((Rat.const(1), 'the integer 1'), (True, 'True')):
+                    bct = w.boundary_conditions()
+                    try:
+                        w.interp.set_attr(bct.attrs[face], 'periodic', tv, None)
+                        w.call('boundary', 'boundaryConditionsTerm', bct)
+                        ob('L3', f"boundary.{ri}/radial-periodic/setter", False, f"{face}.periodic = {tn}: no exception although a radial face is periodic", rfi.loc())
+                    except AbstractRaise as e:
+                        ob('L3', f"boundary.{ri}/radial-periodic/setter", e.exc == 'ValueError', f"{face}.periodic = {tn}: raises {e.exc}", rfi.loc())
         # L3r: the refusal is repeatable - an existing variable whose radial face is flagged periodic afterwards is refused by
         # every apply_BCs / solveExplicitPDE / solvePDE call, not only by the first one (the dirty flags are what route the
         # request to the check; they must survive the exception)
